@@ -85,7 +85,16 @@ Proof.
 Qed.
 Print Assumptions C06_generated_slice.
 
+(* diag_vector(offdiag) (both signs of offdiag: offset, extent as a minimum, stride) and submatrix_on_diagonal(ibegin, iend)
+   (offset, the two extents, strides kept) as read from Array.h are the model's, for every view *)
+Theorem C06_generated_diag_and_submatrix : forall v k ib ie,
+  gen_diag_vector v k = diag_vector v k /\ gen_submatrix_on_diagonal v ib ie = submatrix_on_diagonal v ib ie.
+Proof. intros v k ib ie. exact (conj (gen_diag_vector_eq v k) (gen_submatrix_on_diagonal_eq v ib ie)). Qed.
+Print Assumptions C06_generated_diag_and_submatrix.
+
 (* non-vacuity: A(end-1, stride(end,0,-2)) of a 3 x 5 row-major matrix at offset 100 *)
 Example C06_example_generated_slice :
-  gen_slice (mkView 100 [3;5] [5;1]) [IS (IEnd (-1)); IR (IEnd 0) (IAbs 0) (-2)] = mkView 109 [3] [-2].
-Proof. vm_compute. reflexivity. Qed.
+  gen_slice (mkView 100 [3;5] [5;1]) [IS (IEnd (-1)); IR (IEnd 0) (IAbs 0) (-2)] = mkView 109 [3] [-2] /\
+  gen_diag_vector (mkView 7 [4;4] [4;1]) (-1) = mkView 11 [3] [5] /\
+  gen_submatrix_on_diagonal (mkView 7 [4;4] [4;1]) 1 2 = mkView 12 [2;2] [4;1].
+Proof. vm_compute. repeat split. Qed.
